@@ -25,6 +25,16 @@ def c_char(lit, what):
     return ord(v)
 
 
+def inline_const_locals(body, decl_rx, value_of):
+    """`const T name = <expr>;` locals whose initialiser is one of the known pure expressions are replaced by the
+    expression at every use (a const local cannot be assigned again), the declarations are dropped"""
+    for m in list(re.finditer(decl_rx, body)):
+        name = m.group('name')
+        body = body.replace(m.group(0), ' ', 1)
+        body = re.sub(r'(?<![\w>.])%s\b' % re.escape(name), value_of(m), body)
+    return re.sub(r'\s+', ' ', body)
+
+
 def generate():
     raw = rd('filters/categoryfilter.cpp')
     s = strip_comments(raw)
@@ -43,7 +53,14 @@ def generate():
     need(len(splits) == 2 and splits[0] == splits[1], "parseRules: rules.split('<c>', SkipEmptyParts) in both QT_VERSION branches")
     split_ch = c_char(splits[0], 'split character')
     need(re.search(r'for \(const auto &line : lines\) \{', pr), 'parseRules: for (const auto &line : lines)')
-    m = need(re.search(r'const auto ruleRegex = QRegularExpression\( ?R"\((.*?)\)" ?\);', pr),
+    # const locals naming the captures (const auto pattern = match.captured(1);) are read as the captures themselves;
+    # reserving list capacity is not behaviour
+    pr = inline_const_locals(pr, r'const (?:auto|QString) (?P<name>\w+) = match\.captured\((?P<n>\d)\);',
+                             lambda m: 'match.captured(%s)' % m.group('n'))
+    pr = re.sub(r'm_rules\.reserve\([^;{}]*\); ?', '', pr)
+    # the expression is const either way: a local of the loop body or one function-local static shared by all calls
+    m = need(re.search(r'const auto ruleRegex = QRegularExpression\( ?R"\((.*?)\)" ?\);', pr)
+             or re.search(r'static const QRegularExpression ruleRegex\( ?R"\((.*?)\)" ?\);', pr),
              'parseRules: ruleRegex = QRegularExpression(R"(...)") with no pattern options')
     rx = m.group(1)
     m = need(re.fullmatch(r'\^\\s\*\(\\S\+\?\)\(\?:\\\.\(([a-z]+(?:\|[a-z]+)*)\)\)\?\\s\*=\\s\*\(([A-Za-z0-9]+(?:\|[A-Za-z0-9]+)*)\)\\s\*\$', rx),
@@ -56,6 +73,10 @@ def generate():
     rule_struct = flat(need(re.search(r'struct CategoryFilter::Rule\s*\{(.*?)\};', s, re.S), 'struct CategoryFilter::Rule').group(1))
     mb = flat(fn_body(s, 'CategoryFilter::Rule::matches'))
     type_test = r'\(!typeMatch \|\| type == messageType\)'
+    # the two tests are pure and total: "if (typeMatch && type != messageType) return false; return <pattern test>;"
+    # is the same conjunction evaluated in the other order
+    mb = re.sub(r'^ ?if \(typeMatch && type != messageType\) return false; return (.*?); ?$',
+                r' return \1 && (!typeMatch || type == messageType); ', mb)
     star = None
     if re.search(r'rule->category = match\.captured\(1\);', pr):
         # the pattern is kept verbatim and matched by the file-local wildcardMatch()
@@ -100,7 +121,9 @@ def generate():
                               'DotMatchesEverythingOption)  (or the former "^" + category + "$")')
     need(re.search(r'rule->type = stringToQtMsgType\(match\.captured\(2\)\);', pr), 'parseRules: rule->type = stringToQtMsgType(captured(2))')
     need(re.search(r'rule->typeMatch = !match\.captured\(2\)\.isEmpty\(\);', pr), 'parseRules: rule->typeMatch = !captured(2).isEmpty()')
-    m = need(re.search(r'rule->enabled = match\.captured\(3\) == "([^"\\]*)";', pr), 'parseRules: rule->enabled = captured(3) == "<v>"')
+    m = need(re.search(r'rule->enabled = match\.captured\(3\) == "([^"\\]*)";', pr)
+             or re.search(r'rule->enabled = \(match\.captured\(3\) == QLatin1String\("([^"\\]*)"\)\);', pr),
+             'parseRules: rule->enabled = captured(3) == "<v>"')
     enabling = m.group(1)
     need(re.search(r'm_rules\.append\(rule\);', pr), 'parseRules: m_rules.append(rule)')
     need(len(re.findall(r'\bcontinue\b|\bbreak\b|\breturn\b', pr)) == 1, 'parseRules: exactly one continue, no break/return')
@@ -123,17 +146,29 @@ def generate():
 
     # --- filter(): default verdict and loop shape
     fb = flat(fn_body(s, 'CategoryFilter::filter'))
-    m = need(re.fullmatch(r' ?bool enabled = (true|false); for \(const auto &rule : std::as_const\(m_rules\)\) \{ '
-                          r'if \(rule->matches\(lmsg\.category\(\), lmsg\.type\(\)\)\) \{ (.*?) \} \} return enabled; ?', fb),
-             'filter(): bool enabled = <b>; for (rule : m_rules) { if (rule->matches(category, type)) {...} } return enabled;')
-    default_verdict = m.group(1)
-    inner = m.group(2).strip()
-    if inner == 'enabled = rule->enabled;':
-        shape = 'LastWins'
-    elif inner in ('enabled = rule->enabled; break;', 'return rule->enabled;'):
-        shape = 'FirstWins'
+    # const locals for the name and the type of the message (Rule::matches takes a QString: the implicit conversion
+    # of the const char * is QString::fromUtf8 as well)
+    fb = inline_const_locals(fb, r'const (?:auto|QString|QtMsgType) (?P<name>\w+) = (?P<e>QString::fromUtf8\(lmsg\.category\(\)\)|lmsg\.type\(\));',
+                             lambda m: 'lmsg.type()' if m.group('e') == 'lmsg.type()' else 'lmsg.category()')
+    m = re.fullmatch(r' ?bool enabled = (true|false); for \(const auto &rule : std::as_const\(m_rules\)\) \{ '
+                     r'if \(rule->matches\(lmsg\.category\(\), lmsg\.type\(\)\)\) \{ (.*?) \} \} return enabled; ?', fb)
+    mback = re.fullmatch(r' ?for \(auto it = m_rules\.crbegin\(\), end = m_rules\.crend\(\); it != end; \+\+it\) \{ '
+                         r'const Rule &rule = \*\*it; if \(rule\.matches\(lmsg\.category\(\), lmsg\.type\(\)\)\) return rule\.enabled; \} '
+                         r'return (true|false); ?', fb)
+    need(m or mback, 'filter(): bool enabled = <b>; for (rule : m_rules) { if (rule->matches(category, type)) {...} } return enabled;  '
+                     '(or: the list walked from crbegin() to crend(), return rule.enabled at the first match, return <b> after the loop)')
+    if mback:
+        default_verdict = mback.group(1)
+        shape = 'LastFromBack'
     else:
-        raise AnchorError('ANCHOR NOT FOUND: filter(): unrecognised body of the matching branch: ' + inner)
+        default_verdict = m.group(1)
+        inner = m.group(2).strip()
+        if inner == 'enabled = rule->enabled;':
+            shape = 'LastWins'
+        elif inner in ('enabled = rule->enabled; break;', 'return rule->enabled;'):
+            shape = 'FirstWins'
+        else:
+            raise AnchorError('ANCHOR NOT FOUND: filter(): unrecognised body of the matching branch: ' + inner)
 
     # --- the object's state: the model's CategoryFilter object is its parsed rule list and nothing else
     # (obj_state / obj_step in CategoryDefs.v): one data member, no mutable member, no writable static storage
